@@ -21,7 +21,7 @@ ALT = {
     "kB": [("MB", F(1, 1000)), ("B", F(1000))],
     "s": [("min", F(1, 60)), ("hour", F(1, 3600)), ("ms", F(1000))],
     "MB": [("GB", F(1, 1000)), ("kB", F(1000))],
-    "min": [("s", F(60)), ("hour", F(1, 60))],
+    "min": [("s", F(60)), ("hour", F(1, 60)), ("day", F(1, 1440))],
     "hour/day": [("dimensionless", F(1, 24)), ("min/hour", F(5, 2))],
     "kWh/GB": [("Wh/MB", F(1)), ("J/B", F(36, 10000))],
     "cpu_core": [],
@@ -197,6 +197,9 @@ def plan(tier, seed):
     for param in ("ram_needed", "data_transferred", "data_stored"):
         p.append(("units", dict(skeleton="T4", n=2, which=[f"jobB.{param}", 0], values=long_steps)))
     p.append(("units", dict(skeleton="T3", n=2, which=["job2.ram_needed", 0], values={"step.user_time_spent": 61})))
+    # a step duration written in days (magnitude below 1 although the delay exceeds an hour), a job after that step
+    p.append(("units", dict(skeleton="T4", n=2, which=["step1.user_time_spent", 2])))
+    p.append(("units", dict(skeleton="T4", n=2, which=["step2.user_time_spent", 1])))
     p.append(("units", dict(skeleton="T7", n=2, which=["jobdel.data_stored", 0], args={"offset_hours": 1})))
     # same magnitude, other unit, assigned on the computed system
     for slot, alt in (("job.data_transferred", 0), ("job.ram_needed", 0), ("st.storage_capacity", 0), ("dev.lifespan", 0),
